@@ -50,6 +50,26 @@ CLAIMS = {
             "Not decided: boundary arithmetic (>= vs >), tick totals. Trusted: rustc front end, svfacts, call-graph "
             "model.",
             "DESIGN.md section 2, C15"),
+    "C03": ("K3 field coverage of every Trace body + who-may-call chain + constant-argument extraction + MIR dominance",
+            "Structural clauses only: every Trace impl and the evaluator/module root set visit every field whose type "
+            "can hold an unfrozen Value (decided on the MIR of the final trace bodies, so derive bugs show); the "
+            "collection chain garbage_collect_internal <- Heap::garbage_collect <- Evaluator::garbage_collect <- "
+            "possible_gc <- InstrPossibleGc is closed; GC points are emitted only under allow_gc, which is constant "
+            "true only for module top-level statements and constant false for def and for bodies; copy protocol "
+            "(forward before trace, fill after reserve, old arena outlives the trace); re-entrant evaluation disables "
+            "GC; native recursion through heap_copy (known finding).",
+            "Not decided: element-loop bounds, arena bookkeeping, user-stashed values. Trusted: rustc front end, "
+            "svfacts, the value-bearing type predicate (type-string based, frozen leaves exempt by type).",
+            "DESIGN.md section 2, C03"),
+    "C13": ("MIR dominance (add_reference before hand-out) + unsafe-constructor inventory + dataflow into the sealed heap",
+            "Structural clauses only: at the 12 sites that hand a frozen value of one heap to another heap/owner the "
+            "add_reference call dominates the hand-out (three shapes); add_reference inserts on every not-present path; "
+            "every OwnedFrozen/OwnedFrozenRef/HeapEdge::unchecked_new is dominated by add_reference or in the reviewed "
+            "owner-paired table; into_ref_impl carries refs and arena into the sealed heap and shortcuts only when "
+            "both are empty.",
+            "Not decided: chunk reference counts across drop orders, use-after-free under adversarial histories "
+            "(needs execution). Trusted: rustc front end, svfacts, reviewed owner-paired table.",
+            "DESIGN.md section 2, C13"),
 }
 
 
